@@ -279,6 +279,22 @@ func (vc *FuncVC) execBuiltin(st *State, reach Term, ins *ssa.Call, b *ssa.Built
 						v = Ite(Lt(kk, ls), vc.load(old, key, Add(ps, kk), es), vc.load(old, key, Add(pt, Sub(kk, ls)), es))
 						vc.assume(Implies(Lt(kk, n), Eq(Select(na, Add(p, kk), es), v)))
 					}
+					// every element of the result, as quantified facts over the cell address (the eight ground instances
+					// above stay: they need no instantiation): the first len(s) cells hold s's elements, the rest t's
+					// (read in the state before the append, as memmove does); the bytes of a constant string are known
+					oarr := vc.arr(old, key, es)
+					vc.nfresh++
+					j := Term{fmt.Sprintf("aj_%d", vc.nfresh), SInt}
+					c1 := Implies(And(Le(p, j), Lt(j, Add(p, ls))), Eq(Select(na, j, es), Select(oarr, Add(ps, Sub(j, p)), es)))
+					vc.assume(Term{fmt.Sprintf("(forall ((%s Int)) (! %s :pattern (%s)))", j.S, c1.S, Select(na, j, es).S), SBool})
+					if !tIsString {
+						c2 := Implies(And(Le(Add(p, ls), j), Lt(j, Add(p, n))), Eq(Select(na, j, es), Select(oarr, Add(pt, Sub(j, Add(p, ls))), es)))
+						vc.assume(Term{fmt.Sprintf("(forall ((%s Int)) (! %s :pattern (%s)))", j.S, c2.S, Select(na, j, es).S), SBool})
+					} else if c, isC := args[1].(*ssa.Const); isC && c.Value != nil && c.Value.Kind() == constant.String {
+						for k, b := range []byte(constant.StringVal(c.Value)) {
+							vc.assume(Eq(Select(na, Add(p, Add(ls, IntLit(int64(k)))), es), IntLit(int64(b))))
+						}
+					}
 					vc.vals[ins] = &Val{Kind: vSlice, Elems: []*Val{{T: p}, {T: n}, {T: ncap}}, GoType: ins.Type()}
 					return
 				}
